@@ -360,3 +360,130 @@ Proof.
     + cbn [fst]. apply equiv_set_list; auto.
     + reflexivity.
 Qed.
+
+(* ------------------------------------------------------------------ creation: new_leaf / new_leaf_with_context / new_with_children *)
+
+Lemma NoDup_snoc {A} (l : list A) x : NoDup l -> ~ In x l -> NoDup (l ++ [x]).
+Proof. intros Hn Hx. apply NoDup_insert_mid; rewrite app_nil_r; assumption. Qed.
+
+Lemma next_key_fresh t : WF t -> ~ In (next_key t) (live (abs t)).
+Proof.
+  intros W H. apply abs_live in H. unfold tlive, next_key in *.
+  destruct (sm_insert_spec (t_nodes t) false (wf_inv_n t W)) as [Hn _]. congruence.
+Qed.
+
+(* the three inserts return the same key and keep the maps in lockstep; pm is the parents map after the
+   children cs (all detached, duplicate free) were pointed at the new key *)
+Lemma alloc_refines t b cs pm cx :
+  WF t ->
+  shape pm = shape (t_parents t) -> sm_inv pm ->
+  (forall x, sm_get pm x = if mem x cs then Some (Some (snd (sm_insert (t_nodes t) b))) else sm_get (t_parents t) x) ->
+  NoDup cs -> (forall c, In c cs -> sm_get (t_parents t) c = Some None) ->
+  let t' := mkTree (fst (sm_insert (t_nodes t) b)) cx (fst (sm_insert (t_children t) cs)) (fst (sm_insert pm None)) in
+  WF t' /\
+  spec_equiv (abs t') (mkSpec (live (abs t) ++ [snd (sm_insert (t_nodes t) b)]) (kupd (kids (abs t)) (snd (sm_insert (t_nodes t) b)) cs)).
+Proof.
+  intros W Hsp Hip Hg Hnd Hdet t'.
+  destruct (sm_insert_spec (t_nodes t) b (wf_inv_n t W)) as [Hn0 [Hn1 Hn2]].
+  destruct (sm_insert_spec (t_children t) cs (wf_inv_c t W)) as [Hc0 [Hc1 Hc2]].
+  destruct (sm_insert_spec pm None Hip) as [Hp0 [Hp1 Hp2]].
+  destruct (shape_insert_congr (t_children t) (t_nodes t) cs b (wf_shape_c t W)) as [Sc Kc].
+  assert (Hspn : shape pm = shape (t_nodes t)) by (rewrite Hsp; apply (wf_shape_p t W)).
+  destruct (shape_insert_congr pm (t_nodes t) None b Hspn) as [Sp Kp].
+  set (k := snd (sm_insert (t_nodes t) b)) in *.
+  rewrite Kc in Hc0, Hc1. rewrite Kp in Hp0, Hp1.
+  assert (Hkp : sm_get (t_parents t) k = None).
+  { destruct (sm_get (t_parents t) k) eqn:E; [|reflexivity]. exfalso.
+    assert (Hl : sm_get (t_parents t) k <> None) by congruence.
+    apply (shape_live (t_parents t) (t_nodes t) k (wf_shape_p t W)) in Hl. congruence. }
+  assert (Hkcs : ~ In k cs) by (intros H; specialize (Hdet k H); congruence).
+  assert (W' : WF t').
+  { constructor; simpl; auto.
+    - intros q lq Hq. rewrite Hc1 in Hq. destruct (key_eqb_spec k q) as [<-|Hne].
+      + inversion Hq; subst lq. split; [exact Hnd|]. intros x Hx. rewrite Hp1.
+        destruct (key_eqb_spec k x) as [<-|Hkx]; [tauto|]. rewrite Hg.
+        destruct (mem x cs) eqn:Em; [reflexivity|]. apply mem_false in Em. tauto.
+      + destruct (wf_down t W q lq Hq) as [Hn Hd]. split; [exact Hn|]. intros x Hx. rewrite Hp1.
+        specialize (Hd x Hx). destruct (key_eqb_spec k x) as [<-|Hkx]; [congruence|]. rewrite Hg.
+        destruct (mem x cs) eqn:Em; [|exact Hd]. apply mem_In in Em. specialize (Hdet x Em). congruence.
+    - intros x q Hx. rewrite Hp1 in Hx. destruct (key_eqb_spec k x) as [<-|Hkx]; [discriminate|].
+      rewrite Hg in Hx. rewrite Hc1. destruct (mem x cs) eqn:Em.
+      + inversion Hx; subst q. rewrite key_eqb_refl. exists cs. split; [reflexivity|]. apply mem_In. exact Em.
+      + destruct (wf_up t W x q Hx) as [lq [Hq Hxq]]. destruct (key_eqb_spec k q) as [<-|Hne]; [congruence|].
+        exists lq. split; assumption. }
+  split; [exact W'|].
+  unfold spec_equiv. cbn [live kids].
+  assert (Hmem : forall x, In x (live (abs t')) <-> In x (live (abs t) ++ [k])).
+  { intros x. rewrite in_app_iff. cbn [In]. rewrite !abs_live. unfold tlive, t'. cbn [t_nodes]. rewrite Hn1.
+    destruct (key_eqb_spec k x); split; intros; try congruence; intuition congruence. }
+  split; [exact Hmem|]. split.
+  - apply NoDup_same_length; [apply sm_keys_NoDup | | exact Hmem].
+    apply NoDup_snoc; [apply sm_keys_NoDup|]. intros Hk. apply abs_live in Hk. unfold tlive in Hk. congruence.
+  - intros x _. unfold abs, t', kupd. simpl. rewrite Hc1, (key_eqb_sym x k).
+    destruct (key_eqb k x); reflexivity.
+Qed.
+
+Lemma new_leaf_refines t : WF t -> refines t ONewLeaf.
+Proof.
+  intros W. unfold refines. cbn [step spec_step fst snd]. unfold new_leaf.
+  eexists _, _. split; [reflexivity|].
+  destruct (alloc_refines t false [] (t_parents t) (t_ctx t) W eq_refl (wf_inv_p t W)) as [W' E].
+  - intros x. reflexivity.
+  - constructor.
+  - intros c [].
+  - split; [exact W'|]. split; [exact E | reflexivity].
+Qed.
+
+Lemma shape_key_bool t b1 b2 : snd (sm_insert (t_nodes t) b1) = snd (sm_insert (t_nodes t) b2).
+Proof. apply (shape_insert_congr (t_nodes t) (t_nodes t) b1 b2 eq_refl). Qed.
+
+Lemma abs_nodes_irrelevant n1 n2 cx1 cx2 cm pm :
+  sm_keys n1 = sm_keys n2 -> abs (mkTree n1 cx1 cm pm) = abs (mkTree n2 cx2 cm pm).
+Proof. intros H. unfold abs. simpl. rewrite H. reflexivity. Qed.
+
+Lemma new_leaf_ctx_refines t c : WF t -> refines t (ONewLeafCtx c).
+Proof.
+  intros W. unfold refines. cbn [step spec_step fst snd]. unfold new_leaf_with_context.
+  eexists _, _. split; [reflexivity|].
+  destruct (alloc_refines t true [] (t_parents t) (sec_insert (t_ctx t) (snd (sm_insert (t_nodes t) true)) c) W eq_refl (wf_inv_p t W)) as [W' E].
+  - intros x. reflexivity.
+  - constructor.
+  - intros x [].
+  - unfold next_key. rewrite (shape_key_bool t false true).
+    split; [exact W'|]. split; [exact E | reflexivity].
+Qed.
+
+Lemma new_with_children_refines t cs : WF t -> pre (abs t) (ONewWithChildren cs) -> refines t (ONewWithChildren cs).
+Proof.
+  intros W [Hnd Hcs]. unfold refines. cbn [step spec_step fst snd]. unfold new_with_children.
+  assert (Hdet : forall c, In c cs -> sm_get (t_parents t) c = Some None).
+  { intros c Hc. destruct (Hcs c Hc) as [Hl Hd]. apply detached_parents; auto. }
+  destruct (sm_set_all_spec cs (t_parents t) (Some (snd (sm_insert (t_nodes t) false)))) as [p1 [Hp1 [Hg [_ Hi]]]].
+  { intros k Hk. rewrite (Hdet k Hk). congruence. }
+  rewrite Hp1. cbn [bind].
+  eexists _, _. split; [reflexivity|].
+  destruct (alloc_refines t false cs p1 (t_ctx t) W (shape_set_all _ _ _ _ Hp1) (Hi (wf_inv_p t W)) Hg Hnd Hdet) as [W' E].
+  split; [exact W'|]. split; [exact E | reflexivity].
+Qed.
+
+(* ------------------------------------------------------------------ set_node_context *)
+
+Lemma set_ctx_refines t n c : WF t -> pre (abs t) (OSetCtx n c) -> refines t (OSetCtx n c).
+Proof.
+  intros W Hn. cbn [pre] in Hn. apply abs_live in Hn. unfold refines. cbn [step spec_step fst snd]. unfold set_node_context.
+  assert (Hgen : forall b cx, exists n1, sm_set (t_nodes t) n b = Ok n1 /\
+             WF (mkTree n1 cx (t_children t) (t_parents t)) /\
+             spec_equiv (abs (mkTree n1 cx (t_children t) (t_parents t))) (abs t)).
+  { intros b cx. destruct (sm_set_Ok (t_nodes t) n b Hn) as [n1 H1]. exists n1. split; [exact H1|]. split.
+    - constructor; simpl; try apply W.
+      + apply (sm_set_preserves_inv H1), W.
+      + rewrite (shape_set H1). apply W.
+      + rewrite (shape_set H1). apply W.
+    - rewrite (abs_nodes_irrelevant n1 (t_nodes t) cx (t_ctx t) _ _ (sm_set_keys H1)).
+      destruct t; apply spec_equiv_refl. }
+  destruct c as [v|].
+  - destruct (Hgen true (sec_insert (t_ctx t) n v)) as [n1 [H1 [W' E]]]. rewrite H1. cbn [bind].
+    eexists _, _. split; [reflexivity|]. split; [exact W'|]. split; [exact E | reflexivity].
+  - destruct (Hgen false (sec_remove (t_ctx t) n)) as [n1 [H1 [W' E]]]. rewrite H1. cbn [bind].
+    eexists _, _. split; [reflexivity|]. split; [exact W'|]. split; [exact E | reflexivity].
+Qed.
